@@ -183,6 +183,13 @@ def run_impl(ops, queries_each_step=None):
         outs.append([0])
       except Exception as e:  # pylint: disable=broad-except
         outs.append([1, exn_code(e)])
+    elif kind == 'loadempty':
+      # load([]) into the SAME, already used manager: it must forget every rule
+      try:
+        rm.load_quantization_recipe([])
+        outs.append([0])
+      except Exception as e:  # pylint: disable=broad-except
+        outs.append([1, exn_code(e)])
     elif kind == 'get':
       _, opn, scope = op
       sid(scope)
@@ -193,7 +200,7 @@ def run_impl(ops, queries_each_step=None):
 
   for op in ops:
     do(op)
-    if queries_each_step and op[0] in ('add', 'load'):
+    if queries_each_step and op[0] in ('add', 'load', 'loadempty'):
       for q in queries_each_step:
         do(q)
   state = []
@@ -241,6 +248,8 @@ def oracle(expanded, outs, final_rules=None):
           rules[idx[0]] = (opn, alg, cfg)
         else:
           rules.append((opn, alg, cfg))
+    elif op[0] == 'loadempty':
+      scopes.clear()
     elif op[0] == 'load':
       if out != [0]:
         continue   # failed load leaves the manager unchanged in this harness
@@ -292,6 +301,8 @@ def coq_case(expanded, rid, sid, oid):
                    f'{c_akey(alg, oid)}')
     elif op[0] == 'load':
       items.append('RLoadSelf')
+    elif op[0] == 'loadempty':
+      items.append('RLoadEmpty')
     elif op[0] == 'get':
       items.append(f'RGet {c_op(op[1])} {sid(op[2])}')
     else:
@@ -349,8 +360,10 @@ def gen_histories(rng, tier, n_random):
         ops.append(('add', rng.choice(rgs), rng.choice(opsel),
                     rng.choice(cfgsel),
                     rng.choice(ALGS * 3 + ['bogus_alg'])))
-      elif r < 0.8:
+      elif r < 0.78:
         ops.append(('load',))
+      elif r < 0.81:
+        ops.append(('loadempty',))
       elif r < 0.97:
         ops.append(('get', rng.choice(RICH_OPS[1:]), rng.choice(RICH_SCOPES)))
       else:
